@@ -214,3 +214,31 @@ __CPROVER_assigns(((struct Var9 *)((void **)V9(vars)->d)[i])->desiredPosition)
 ;
 void h_head_body(void) { void *rs, *vars; unsigned long i; w_head_body(rs, vars, i); VERIF_CANARY; }
 #endif
+
+/* ------------------------------------------------------------------------------------------------
+ * Solver::refine, one pass: it may end with "solved" only if EVERY block of the set was asked for its minimal Lagrange multiplier
+ * and none was below the tolerance; a split ends the pass unsolved.  BOUNDED: up to 3 blocks. */
+#if defined(JOB_refine_pass)
+int w_refine_pass(void); void *verif_constraint(unsigned k, double lm);
+static char blk[3][8]; static unsigned long nblocks; static _Bool examined[3], has_c[3], was_split; static double lmv[3];
+unsigned long w_bs_size(void) { return nblocks; }
+void *w_bs_at(unsigned long i) { __CPROVER_assert(i < nblocks, "SPEC bs->at within the block set"); return blk[i]; }
+void *w_findMinLM(void *b) { for (unsigned k = 0; k < 3; ++k) if (b == (void *)blk[k]) { examined[k] = 1; return has_c[k] ? verif_constraint(k, lmv[k]) : (void *)0; } return (void *)0; }
+void w_pass_note(int what, void *b) { if (what == 3) was_split = 1; }
+void h_refine_pass(void)
+{
+  _Bool hc[3]; double lm[3]; unsigned long n;
+  __CPROVER_assume(n <= 3);
+  nblocks = n; was_split = 0;
+  for (int k = 0; k < 3; ++k) { __CPROVER_assume(!IS_NAN(lm[k])); examined[k] = 0; has_c[k] = hc[k]; lmv[k] = lm[k]; }
+  int solved = w_refine_pass();
+  if (solved) {
+    for (unsigned k = 0; k < 3; ++k) if (k < n) {
+      __CPROVER_assert(examined[k], "SPEC a pass that ends solved has examined every block of the set");
+      __CPROVER_assert(!(hc[k] && lm[k] < -1e-4), "SPEC a pass that ends solved found no block whose minimal multiplier is below the tolerance");
+    }
+    __CPROVER_assert(!was_split, "SPEC a pass that split a block does not end solved");
+  }
+  VERIF_CANARY;
+}
+#endif
